@@ -78,6 +78,14 @@ pub fn judge(w: &World, r: &RunResult) -> Vec<Violation> {
             _ => None,
         }
     };
+    // the bytes a reference delivers: an item's native bytes, or literal native bytes
+    let ref_bytes = |r: &Ref, bytes: &BTreeMap<Id, Vec<u8>>| -> Option<Vec<u8>> {
+        match r {
+            Ref::Item { id, .. } => bytes.get(id).cloned(),
+            Ref::Lit { codec: crate::suite::Codec::Native, bytes: b, .. } => Some(b.0.clone()),
+            _ => None,
+        }
+    };
     macro_rules! bad {
         ($i:expr, $what:expr, $got:expr, $exp:expr) => {
             v.push(Violation {
@@ -239,12 +247,12 @@ pub fn judge(w: &World, r: &RunResult) -> Vec<Violation> {
             Op::LoginRespond { st, msg, setup, record, req, cred, ctx, ids, .. } => {
                 let (Some(state), Some(m)) = (outs.get("state"), outs.get("msg")) else { continue };
                 bytes.insert(*msg, m.clone());
-                let (Some(su), Some(ke1)) = (item(setup).and_then(|x| setups.get(&x)), item(req).and_then(|x| bytes.get(&x)).cloned()) else { continue };
+                let (Some(su), Some(ke1)) = (item(setup).and_then(|x| setups.get(&x)), ref_bytes(req, &bytes)) else { continue };
                 let Some((idu, ids_)) = resolve_ids(ids, &bytes, &setups) else { continue };
                 let rec = match record {
                     None => None,
-                    Some(rf) => match item(rf).and_then(|x| bytes.get(&x)) {
-                        Some(x) => Some(x.clone()),
+                    Some(rf) => match ref_bytes(rf, &bytes) {
+                        Some(x) => Some(x),
                         None => continue,
                     },
                 };
@@ -406,9 +414,89 @@ pub fn gen_world(seed: u64, idx: u64, s: &dyn SuiteOps, cover: usize) -> World {
     w
 }
 
+/// Crafted-but-acceptable inputs to the server: the honest KE1 / password file with one
+/// field replaced by another valid value (a key share that is the server's own public key,
+/// a blinded element that is some other group element, nonces 00…/FF…, and for the
+/// Curve25519 key-exchange group key shares and client public keys with a small-order
+/// component added, which RFC 7748's X25519 must clear). Two phases: the honest prefix is
+/// run once to learn the bytes, then every variant is answered by the server and the
+/// answer recomputed by Model B.
+pub fn crafted_world(seed: u64, idx: u64, s: &dyn SuiteOps) -> World {
+    let mut g = Gen::new(seed, &format!("gen/c09/crafted/{}/{}", s.name(), idx));
+    let mut b = WB::new(s, seed, idx, "c09 crafted-but-acceptable requests and password files");
+    let lens = s.lens();
+    let setup = b.setup(false);
+    let pw = small_pw(&mut g);
+    let cred = small_cred(&mut g);
+    let ksf = gen_ksf(&mut g, s.ksf_family(), true);
+    let (r, ops) = b.reg_ops(&mut g, setup, &pw, &pw, &cred, WIds::default(), ksf, false);
+    for o in ops {
+        b.push(o);
+    }
+    let (cst, rq) = (b.id(), b.id());
+    let tape = b.tape("loginstart");
+    b.push(Op::LoginStart { st: cst, msg: rq, tape, pw: pw.clone().into() });
+    let r1 = crate::world::run_world(&b.w);
+    let out_of = |name: &str, key: &str| -> Option<Vec<u8>> {
+        r1.events.iter().rev().find(|e| e.name == name).and_then(|e| e.res.as_ref().ok()).and_then(|o| o.iter().find(|x| x.0 == key)).map(|x| x.1 .0.clone())
+    };
+    let (Some(ke1), Some(rec), Some(regresp)) = (out_of("LoginStart", "msg"), out_of("RegStore", "record"), out_of("RegRespond", "msg")) else {
+        return b.w;
+    };
+    let (noe, npk) = (lens.noe, lens.npk);
+    let mut reqs: Vec<Vec<u8>> = vec![];
+    let mut recs: Vec<Vec<u8>> = vec![];
+    let with = |base: &[u8], off: usize, val: &[u8]| {
+        let mut x = base.to_vec();
+        x[off..off + val.len()].copy_from_slice(val);
+        x
+    };
+    // key share := the server's static public key / the client's static public key
+    reqs.push(with(&ke1, noe + 32, &regresp[noe..noe + npk]));
+    reqs.push(with(&ke1, noe + 32, &rec[..npk]));
+    // blinded element := the evaluated element of the registration
+    reqs.push(with(&ke1, 0, &regresp[..noe]));
+    // nonces
+    reqs.push(with(&ke1, noe, &[0u8; 32]));
+    reqs.push(with(&ke1, noe, &[0xFFu8; 32]));
+    // password file whose client public key is the server's public key
+    recs.push(with(&rec, 0, &regresp[noe..noe + npk]));
+    if s.ke() == crate::suite::Grp::Curve25519 {
+        use curve25519_dalek::{constants::EIGHT_TORSION, montgomery::MontgomeryPoint};
+        let twist = |u: &[u8], i: usize| -> Option<Vec<u8>> {
+            let mut a = [0u8; 32];
+            a.copy_from_slice(u);
+            let e = MontgomeryPoint(a).to_edwards((i % 2) as u8)?;
+            Some((e + EIGHT_TORSION[i]).to_montgomery().to_bytes().to_vec())
+        };
+        for i in 1..8 {
+            if let Some(t) = twist(&ke1[noe + 32..], i) {
+                reqs.push(with(&ke1, noe + 32, &t));
+            }
+            if let Some(t) = twist(&rec[..npk], i) {
+                recs.push(with(&rec, 0, &t));
+            }
+        }
+    }
+    let ctx = if g.chance(1, 2) { Some(b"crafted".to_vec()) } else { None };
+    let mut respond = |b: &mut WB, req: Ref, record: Option<Ref>| {
+        let (st, msg) = (b.id(), b.id());
+        let tape = b.tape("loginrespond");
+        b.push(Op::LoginRespond { st, msg, tape, setup: Ref::mem(setup), record, req, cred: cred.clone().into(), ctx: ctx.clone().map(Into::into), ids: WIds::default() });
+    };
+    for q in &reqs {
+        respond(&mut b, Ref::lit(crate::suite::Kind::CredReq, q.clone()), Some(Ref::mem(r.record)));
+        respond(&mut b, Ref::lit(crate::suite::Kind::CredReq, q.clone()), None);
+    }
+    for x in &recs {
+        respond(&mut b, Ref::mem(rq), Some(Ref::lit(crate::suite::Kind::PwFile, x.clone())));
+    }
+    b.w
+}
+
 pub fn run(ctx: &Ctx) -> Report {
     let mut rep = Report::new(
-        "C01's honest worlds (password 0..65535 bytes x 6 content classes, credential id 0..70000, identities absent / explicit-default / one-sided / empty / 255 / 256 / 65535, context up to 65535, KSF absent/explicit for SimKsf, Identity and Argon2) plus no-record logins, on all 44 suite instantiations; every op is recomputed by Model B from the witnesses in the serialized states/messages and the recorded draws: setup keys (DeriveDiffieHellmanKeyPair of drawn seeds), registration request/response/upload, password file, export key, KE1, credential response (evaluation, masked response incl. the fake path, server MAC), pending server state (chunk-set of RFC-named values), KE3, session keys, the value handed to the KSF, and accept/reject of the client. Model B must first reproduce the 9 RFC 9807 vectors (else exit 2). Every world is non-trivial: each compares dozens of byte strings with an independent specification",
+        "C01's honest worlds (password 0..65535 bytes x 6 content classes, credential id 0..70000, identities absent / explicit-default / one-sided / empty / 255 / 256 / 65535, context up to 65535, KSF absent/explicit for SimKsf, Identity and Argon2) plus no-record logins, on all 44 suite instantiations; every op is recomputed by Model B from the witnesses in the serialized states/messages and the recorded draws: setup keys (DeriveDiffieHellmanKeyPair of drawn seeds), registration request/response/upload, password file, export key, KE1, credential response (evaluation, masked response incl. the fake path, server MAC), pending server state (chunk-set of RFC-named values), KE3, session keys, the value handed to the KSF, and accept/reject of the client. Model B must first reproduce the 9 RFC 9807 vectors (else exit 2). Plus crafted-but-acceptable inputs to the server (KE1 whose key share is the server's or the client's static key, whose blinded element is another group element, nonces 00/FF; a password file whose client key is the server's; on the Curve25519 group, key shares and client public keys with each of the 7 small-order components added, which X25519 must clear): every answer recomputed by Model B. Every world is non-trivial: each compares dozens of byte strings with an independent specification",
     );
     match crate::spec_vectors::check_all(&ctx.verif_dir) {
         Ok(n) => {
@@ -437,6 +525,14 @@ pub fn run(ctx: &Ctx) -> Report {
         gen_world(seed, k, suites[si], k as usize)
     };
     super::world_batch(ctx, &mut rep, jobs.len(), &gen, OWN, true, Some(&judge));
+    // crafted-but-acceptable inputs to the server, recomputed by Model B
+    let cper = ctx.pick(2, 60);
+    let cjobs: Vec<(usize, u64)> = suites.iter().enumerate().filter(|(_, s)| s.ksf_family() != KsfFamily::Argon2).flat_map(|(si, _)| (0..cper).map(move |k| (si, k as u64))).collect();
+    let cgen = |i: usize| {
+        let (si, k) = cjobs[i];
+        crafted_world(seed, k, suites[si])
+    };
+    super::world_batch(ctx, &mut rep, cjobs.len(), &cgen, OWN, true, Some(&judge));
     rep.extra.insert("byte_strings_compared_with_model_b".into(), serde_json::json!(COMPARED.load(std::sync::atomic::Ordering::Relaxed)));
     rep.assumptions.push("Nseed := Nsk of the key-exchange group (DESIGN.md Appendix A): for the RFC's own configurations this equals the RFC's 32".into());
     rep.assumptions.push("Model B trusts the curve crates for group arithmetic and the NIST hash-to-curve map, sha2 for hashing, argon2 for the Argon2 instances".into());
